@@ -121,7 +121,9 @@ fn main() {
     }
     // text: EVERY built-in font (the font metrics are what varies)
     let c = catalog::colors_for("BinaryColor");
-    let strings = ["", "A", "gj|", "ab\ncd", "x\n\nyz"];
+    // incl. whitespace-only lines as first / last / widest line (blanks are visible with a background or a
+    // decoration) and a tab (drawn as the replacement glyph)
+    let strings = ["", "A", "gj|", "ab\ncd", "x\n\nyz", "Hi\n   ", "  \nHi", "a\n     \nb", " \t"];
     let combos: Vec<(i64, i64, i64, i64)> = if th {
         let mut all = vec![];
         for tc in [c.text, -1] {
